@@ -935,7 +935,10 @@ namespace avel {
     [[nodiscard]]
     AVEL_FINL vec4x32f negate(mask4x32f m, vec4x32f v) {
         #if defined(AVEL_AVX512VL) || defined(AVEL_AVX10_1)
-        return vec4x32f{_mm_mask_sub_ps(decay(v), decay(m), _mm_setzero_ps(), decay(v))};
+        // Flip the sign bit of the selected lanes (0 - v would keep the sign of zeros and NaNs)
+        auto bits = _mm_castps_si128(decay(v));
+        auto flipped = _mm_mask_xor_epi32(bits, decay(m), bits, _mm_set1_epi32(0x80000000));
+        return vec4x32f{_mm_castsi128_ps(flipped)};
 
         #elif defined(AVEL_SSE2)
         auto negation_mask = _mm_and_ps(decay(m), _mm_set1_ps(float_sign_bit_mask));
